@@ -5,6 +5,8 @@ import (
 	"encoding/json"
 	"fmt"
 	"os"
+	"path/filepath"
+	"regexp"
 	"strings"
 	"testing"
 	"time"
@@ -369,12 +371,64 @@ func decide(c Case) error {
 
 func init() {
 	ev.RegisterReplay("c10.failstop", func(raw json.RawMessage) error {
+		var bc BatchCase
+		if err := json.Unmarshal(raw, &bc); err == nil && len(bc.Files) > 0 {
+			return decideBatch(bc)
+		}
 		var c Case
 		if err := json.Unmarshal(raw, &c); err != nil {
 			return err
 		}
 		return decide(c)
 	})
+}
+
+// BatchCase: a directory of programs generated by one run of the templ generate command.
+type BatchCase struct {
+	Files []*tgen.File `json:"files"`
+}
+
+var fileNameLit = regexp.MustCompile("FileName: `([^`]*)`")
+
+// checkGenerated: the file name compiled into every templ.Error of p<i>_templ.go is p<i>.templ, and
+// the run of the command was free of data races (this process is built with the race detector).
+func checkGenerated(bin *tbatch.Binary, n int) error {
+	if r := ev.RaceCheck(); r != "" {
+		return fmt.Errorf("templ generate over a directory of %d templates: the race detector reported\n%s", n, r)
+	}
+	for i := 0; i < n; i++ {
+		b, err := os.ReadFile(filepath.Join(bin.Dir, fmt.Sprintf("p%d_templ.go", i)))
+		if err != nil {
+			return fmt.Errorf("templ generate left no p%d_templ.go: %v", i, err)
+		}
+		for _, m := range fileNameLit.FindAllStringSubmatch(string(b), -1) {
+			if want := fmt.Sprintf("p%d.templ", i); m[1] != want {
+				return fmt.Errorf("p%d_templ.go reports expression errors with file name %q, the template is %q", i, m[1], want)
+			}
+		}
+	}
+	return nil
+}
+
+func decideBatch(c BatchCase) error {
+	for _, f := range c.Files {
+		tgen.Normalize(f)
+	}
+	for round := 0; round < 5; round++ { // which worker takes which file is up to the scheduler
+		bin, err := tbatch.Build(c.Files, batch.Options{ViaCommand: true})
+		if err != nil {
+			if _, ok := err.(*batch.GenError); ok {
+				return nil
+			}
+			panic("harness: " + err.Error())
+		}
+		err = checkGenerated(bin, len(c.Files))
+		bin.Close()
+		if err != nil {
+			return err
+		}
+	}
+	return nil
 }
 
 func TestPropFailStop(t *testing.T) {
@@ -390,11 +444,20 @@ func TestPropFailStop(t *testing.T) {
 			}
 			files = append(files, f)
 		}
-		bin, err := tbatch.Build(files, batch.Options{})
+		// half of the batches are generated the way users generate them: by `templ generate` over the
+		// directory with its pool of workers
+		viaCmd := rapid.Bool().Draw(t, "viaCommand")
+		bin, err := tbatch.Build(files, batch.Options{ViaCommand: viaCmd})
 		if err != nil {
 			panic("harness: " + err.Error())
 		}
 		defer bin.Close()
+		if viaCmd {
+			rec.Class("batch generated by the templ generate command")
+			if err := checkGenerated(bin, len(files)); err != nil {
+				rec.Fail(t, BatchCase{Files: files}, "%v", err)
+			}
+		}
 		for k, f := range files {
 			a := genBigArgs.Draw(t, "args")
 			// nested loops multiply: keep the iteration counts at about 150 per path, so that the
